@@ -76,7 +76,10 @@ pub fn run_binary(ext: &str, text: &str, args: &[String], want_proof: bool, pert
                         break;
                     }
                     Ok(None) => {
-                        if start.elapsed() > Duration::from_secs(secs) {
+                        // the limit is CPU time of the solver process (a starved machine is not a
+                        // non-terminating solver), with a generous wall-clock cap
+                        let cpu = crate::supervisor::cpu_seconds(child.id()).unwrap_or(0.0);
+                        if cpu > secs as f64 || start.elapsed() > Duration::from_secs(secs * 10) {
                             let _ = child.kill();
                             let _ = child.wait();
                             result.timed_out = true;
@@ -127,7 +130,7 @@ fn viol(class: &str, msg: String) -> Violation {
 
 fn crash_class(r: &RunResult) -> Option<Violation> {
     if r.timed_out {
-        return Some(viol("CLI:no-answer-within-time-limit", "the solver did not terminate within the per-run wall-clock limit (no time limit was given to it)".to_string()));
+        return Some(viol("CLI:no-answer-within-time-limit", "the solver did not terminate within the per-run CPU-time limit (no time limit was given to it)".to_string()));
     }
     if r.code != Some(0) {
         let line = r.stderr.lines().chain(r.stdout.lines()).find(|l| l.contains("panicked") || l.contains("rror")).unwrap_or("").to_string();
